@@ -500,7 +500,7 @@ Section StmtRender.
     | SLet v e _ => let ve := assign_locs L p t_let v e in SLet (fst ve) (snd ve) p
     | SVar v e _ => let ve := assign_locs L p t_var v e in SVar (fst ve) (snd ve) p
     | SSet v e _ => let ve := assign_locs L p t_set v e in SSet (fst ve) (snd ve) p
-    | SNode v _ _ => SNode (vloc (sub L 1) (pos_after p (t_node ++ Gs L 0 true (starts_word (var_expr v)))) v) [] p
+    | SNode v t _ => SNode (vloc (sub L 1) (pos_after p (t_node ++ Gs L 0 true (starts_word (var_expr v)))) v) t p
     | SEdge a b _ =>
         let p1 := pos_after p (t_edge ++ Gs L 0 true (starts_word a)) in
         SEdge (rloc (sub L 1) p1 a)
@@ -623,7 +623,7 @@ Section WfStmts.
     let all := fix all (l : list stmt) : Prop := match l with [] => True | s :: l' => WfStmt s /\ all l' end in
     match st with
     | SLet v e _ | SVar v e _ | SSet v e _ => WfVar v /\ WfExpr X e
-    | SNode v _ _ => WfVar v
+    | SNode v t _ => WfVar v /\ t = display_variable (dpenv_of (x_print X)) v
     | SEdge a b _ => WfExpr X a /\ WfExpr X b
     | SAttrNode n attrs _ => WfExpr X n /\ attrs <> [] /\ Forall (WfAttr X) attrs
     | SAttrEdge a b attrs _ => WfExpr X a /\ WfExpr X b /\ attrs <> [] /\ Forall (WfAttr X) attrs
